@@ -95,7 +95,7 @@ func listWal(dir string) []string {
 }
 
 func runC11(o *out, r *rng, thorough bool, replay string) {
-	o.Rule = "histories of append (small .. 400KiB records, forcing rotation above 1MiB)/rotate/close/purge/reopen on the real WAL in a scratch directory, with crashes simulated by abandoning the handle and truncating the last file at a chosen byte offset of an in-flight append (thorough: every offset); All() and the directory contents are compared with the Coq model after every step; non-trivial = >=1 rotation or restart and >=2 epochs"
+	o.Rule = "histories of append (small .. 400KiB records, forcing rotation above 1MiB)/rotate/close/purge/reopen on the real WAL in a scratch directory, with crashes simulated by abandoning the handle and truncating the last file at a chosen byte offset of an in-flight append (thorough: every offset); All() and the directory contents are compared with the Coq model after every step; non-trivial = >=1 rotation or restart and >=2 epochs; histories include appends REJECTED by the encoder after it has produced part of the record (nothing acknowledged, the log as before)"
 	base := filepath.Join(o.dir, "wal")
 	nh := 80
 	if thorough {
